@@ -44,7 +44,21 @@ def model_schedule(n, nproc, order):
     return labels + ["MainGet"] * n
 
 
+def translate(chk):
+    import parmap as trp
+    import pyir
+    try:
+        text, f = trp.emit(common.REPO)
+    except (pyir.TranslationError, SyntaxError, OSError) as e:
+        chk.tie_broken("translate/parmap.py", f"structure fingerprint refused parallel_map.py: {e}")
+        return None
+    common.write_if_changed(os.path.join(common.GEN, "Gen_ParMap.v"), text)
+    return f
+
+
 def run(chk):
+    translate(chk)
+    chk.trust("translate/parmap.py (structural facts of worker_run / __call__ / _WorkerException regenerated into Gen_ParMap.v)")
     chk.trust("hand model theories/Model_ParMap.v (anonymous workers, FIFO queues, result carried with its index) tied to the code by this correspondence",
               "multiprocessing.Queue is FIFO per producer and loses nothing; dill/pickle round-trip arguments and results faithfully (modelled, not verified)",
               "harness/impl/parmap.py realises completion orders with gate files on the real ParallelMap")
